@@ -4,7 +4,8 @@ from props._wf_common import TRUSTED, DROPPED, ASSUME
 PROP, LEVEL, ENGINE = "C01", "other", "jxvc"
 DESIGN_REF = "DESIGN.md section 3 C01"
 TECHNIQUE = ("deductive, value-universal/shape-bounded: jaxpr of the real overlap functions interpreted over Q(i)(x), "
-             "decided as polynomial/rational identities against a Fock-space spec; batching index maps by z3 (all sizes)")
+             "decided as polynomial/rational identities against a Fock-space spec; batching index maps by z3 (all sizes)"
+             " Plus all-sizes obligations (kind proof): tensor normal forms with SYMBOLIC sizes of the same traced functions (engine B-T, DESIGN 2.3b).")
 EXPLANATION = ("Each obligation is an identity of rational functions in ALL symbolic inputs (every complex walker, every trial "
                "parameter set) at an enumerated list of shapes (norb, nelec, ndets): the real overlap code, traced by JAX from the real "
                "objects, equals the inner product of the trial state written out in second quantisation with the walker determinant. "
